@@ -16,7 +16,9 @@ class C11(C10):
     extra_ops = ("copy",)
     RULE = ("One run = one seeded history (1..40 operations) of the C10 "
             "machine plus copy operations by m.copy(), copy.copy, "
-            "copy.deepcopy and pickle protocols 0-5 on nested containers "
+            "copy.deepcopy, pickle protocols 0-5 in process and (4% of copies) "
+            "a pickle round trip through a second interpreter started with "
+            "another PYTHONHASHSEED, on nested containers "
             "with duplicate keys of all four classes; mutations keep "
             "arriving on originals, copies and their nested containers. "
             "At the copy: equal both ways, same class at every level, "
@@ -34,6 +36,7 @@ class C11(C10):
         "pickle) are required to share nothing mutable with it"]
     REQUIRED_PROBES = ["probe.copy:method", "probe.copy:copy.copy",
                        "probe.copy:deepcopy", "probe.copy:pickle2",
+                       "probe.restart-in-other-interpreter",
                        "probe.mutation-after-copy",
                        "probe.nested-mutation-after-copy"]
 
@@ -41,6 +44,9 @@ class C11(C10):
         super().probes(out, m, op)
         if op[0] == "copy":
             out.inc("probe.copy:" + op[2])
+            if op[2].startswith("xpickle"):
+                out.inc("probe.restart-in-other-interpreter")
+                out.inc("fault.restart-other-interpreter-other-hashseed")
             out.inc("fault.restart-from-serialised-state"
                     if op[2].startswith("pickle") else "fault.none-copy")
             self.copied = True
